@@ -1,8 +1,10 @@
 //! pmv: conformance harness between the TLA+ specification in /verif/spec and pmtiles2.
 //! Subcommands write NDJSON traces that TLC validates (see /verif/DESIGN.md).
 
+mod archive;
 mod codec;
 mod hilbert;
+mod store;
 mod util;
 
 use util::Out;
@@ -35,6 +37,12 @@ fn main() {
                     let zmax: u8 = arg(&args, "--zmax").map_or(8, |s| s.parse().expect("zmax"));
                     hilbert::drive(seed, &tier, zmax, &mut out);
                 }
+                "history" => store::drive_history(seed, &tier, &mut out),
+                "bulk" => store::drive_bulk(seed, &tier, &mut out),
+                "canon" => {
+                    let wd = std::path::Path::new(outp).parent().expect("dir").to_str().expect("utf8").to_string();
+                    store::drive_canon(seed, &tier, &wd, &mut out)
+                }
                 _ => {
                     eprintln!("unknown family {family}");
                     std::process::exit(2);
@@ -44,6 +52,7 @@ fn main() {
             out.finish();
             println!("events={n}");
         }
+        "save-child" => store::save_child(&args[2], &args[3]),
         other => {
             eprintln!("unknown subcommand {other}");
             std::process::exit(2);
